@@ -1,10 +1,11 @@
 (* C12 - The emitted history is a faithful, ordered sequence of state snapshots (scheduler part).
    Model: Model/Sched.v; proofs: Proofs/Sched_clock_proofs.v; witness: Proofs/SchedC_witness.v.
-   The content of a row as a function of the store (emit flags, units, serializers) is Model/Emit.v.
+   The content of a row as a function of the store (emit flags, custom serializers, unset values, branch-level _emit,
+   set_emit_value) is Model/Emit.v with Proofs/Emit_proofs.v; unit conversion of emitted quantities is C14's model.
    This file contains only statements closed by `exact`, their assumptions and non-vacuity examples.
    Generated once by tools/genprops.py from the proved lemmas (statements restated verbatim). *)
 From Coq Require Import List NArith ZArith Bool Lia Sorting.Sorted.
-From Viv Require Import Model.Sched Model.SchedC Proofs.Sched_defs Proofs.Sched_clock_proofs Proofs.Sched_once_proofs Proofs.SchedC_witness.
+From Viv Require Import Base.Assoc Base.Tree Model.Emit Proofs.Emit_proofs Model.Sched Model.SchedC Proofs.Sched_defs Proofs.Sched_clock_proofs Proofs.Sched_once_proofs Proofs.SchedC_witness.
 Import ListNotations.
 Open Scope Z_scope.
 
@@ -140,6 +141,57 @@ Theorem C12_dup_refuted_pinned :
            emit_times (log cst cupd cw s') = [160; 160; 160; 80; 80; 0].
 Proof. exact @dup_refuted_pinned. Qed.
 Print Assumptions C12_dup_refuted_pinned.
+
+(* a variable is in the row exactly when it is flagged for emission and holds a value; its serializer is applied *)
+Theorem C12_emit_leaf :
+  forall (v : option Z) (e s : bool),
+         emit_data (ELeaf v e s) =
+         (if e then match v with
+                    | Some z => Some (Lf (serialize s z))
+                    | None => None
+                    end else None).
+Proof. exact @emit_leaf. Qed.
+Print Assumptions C12_emit_leaf.
+
+(* a branch of the row has an entry for a child exactly when the child emits something, and the entry is the child row: structure preserved, nothing else appears *)
+Theorem C12_emit_children_lookup :
+  forall (c : alist enode) (k : key),
+         NoDup (akeys c) ->
+         alookup k (emit_children c) =
+         match alookup k c with
+         | Some x => emit_data x
+         | None => None
+         end.
+Proof. exact @emit_children_lookup. Qed.
+Print Assumptions C12_emit_children_lookup.
+
+(* a branch-level _emit / set_emit_value sets the flag of every variable below and changes nothing else *)
+Theorem C12_set_emit_leaves :
+  forall (b : bool) (n : enode) (pre : list key),
+         eleaves (set_emit b n) pre =
+         map
+           (fun pl : list key * (option Z * bool * bool) =>
+            (fst pl, (fst (fst (snd pl)), b, snd (snd pl)))) (eleaves n pre).
+Proof. exact @set_emit_leaves. Qed.
+Print Assumptions C12_set_emit_leaves.
+
+(* after turning a branch on every valued variable below is flagged *)
+Theorem C12_set_emit_true_emits_all :
+  forall (n : enode) (pre p : list key) (v : Z) (s : bool),
+         In (p, (Some v, s))
+           (map
+              (fun pl : list key * (option Z * bool * bool) =>
+               (fst pl, (fst (fst (snd pl)), snd (snd pl)))) (eleaves n pre)) ->
+         In (p, (Some v, true, s)) (eleaves (set_emit true n) pre).
+Proof. exact @set_emit_true_emits_all. Qed.
+Print Assumptions C12_set_emit_true_emits_all.
+
+(* after turning it off none is *)
+Theorem C12_set_emit_false_silent :
+  forall (n : enode) (pre : list key) (x : list key * (option Z * bool * bool)),
+         In x (eleaves (set_emit false n) pre) -> snd (fst (snd x)) = false.
+Proof. exact @set_emit_false_silent. Qed.
+Print Assumptions C12_set_emit_false_silent.
 
 
 (* ---- non-vacuity: a reachable state of a concrete composite meets the hypotheses ---- *)
